@@ -131,6 +131,8 @@ def run_canaries(pid, cfg, tier, procs):
             continue
         new_text = text.replace(c['old'], c['new'])
         tasks = [t for t in build_tasks({'units': c['units']}, 'quick', overrides={c['module']: new_text})]
+        if c.get('case_indices') is not None:
+            tasks = [t for t in tasks if t.get('case_index') in c['case_indices']]      # (one typed case is enough to fail)
         for t in tasks:
             t['timeout_ms'] = 3000          # a canary only has to FAIL an obligation; no need to wait for long timeouts
             t['no_cvc5'] = True
